@@ -403,8 +403,9 @@ def buildFieldCore (fuel : Nat) (cfg : CfgView) (req : Request) (ctx : MsgCtx) (
 
 end
 
-/-- fuel that suffices for an acyclic request: one unit per message level and per map indirection -/
-def defaultFuel (req : Request) : Nat := 2 * (req.allFiles.flatMap (·.messages)).length + 4
+/-- fuel that suffices for an acyclic request: a level of nesting costs at most three units (message, field, and the value
+field of a map), and an acyclic chain visits every message at most once -/
+def defaultFuel (req : Request) : Nat := 3 * (req.allFiles.flatMap (·.messages)).length + 4
 
 /-- `BuildMessage(plugin, message, true, "")` for one top-level message: `none` when it is not listed in `types`. -/
 def buildRoot (cfg : Config) (req : Request) (desc : MsgD) : Except BuildError (Option Msg) :=
